@@ -322,6 +322,9 @@ async def _drive(spec, tr, wf, ctx=None, start=True):
     responders = []
 
     async def consume():
+        if spec.get("consumer_delay"):
+            # a consumer that only starts reading later (possibly after the run has ended): everything published is still there for it
+            await asyncio.sleep(spec["consumer_delay"])
         async for e in handler.stream_events(expose_internal=True):
             d = describe_event(e)
             tr.stream.append(d)
